@@ -3,8 +3,8 @@ package props
 import (
 	"bytes"
 	"fmt"
-	"runtime"
 	"reflect"
+	"runtime"
 	"sort"
 	"testing"
 	"time"
